@@ -9,6 +9,7 @@ import (
 	"fmt"
 	"go/ast"
 	"go/parser"
+	"go/printer"
 	"go/token"
 	"os"
 	"path/filepath"
@@ -31,6 +32,7 @@ type facts struct {
 	EventReplacer   []string          `json:"event_replacer"`
 	EventFormats    []string          `json:"event_formats"`
 	IDEscapeFn      string            `json:"id_escape_fn"`
+	SysFlags        map[string]bool   `json:"sys_flags"`
 	Consts          map[string]string `json:"consts"`
 	Errors          []string          `json:"errors"`
 }
@@ -413,6 +415,36 @@ func isCall2(n ast.Node, pkg, fn string) (*ast.CallExpr, bool) {
 	return isCall(e, pkg, fn)
 }
 
+// escapeKind classifies an expression applied to the string being escaped:
+//   url.QueryEscape(x)                                   -> "url.QueryEscape"        (space -> '+')
+//   strings.ReplaceAll(url.QueryEscape(x), "+", "%20")   -> "url.QueryEscape;+=%20"  (space -> %20)
+//   helper(x) where helper's body returns one of those    -> that
+func escapeKind(f *ast.File, e ast.Expr, depth int) string {
+	if c, ok := isCall(e, "url", "QueryEscape"); ok && len(c.Args) == 1 {
+		return "url.QueryEscape"
+	}
+	if c, ok := isCall(e, "strings", "ReplaceAll"); ok && len(c.Args) == 3 {
+		a, ok1 := strLit(c.Args[1])
+		b, ok2 := strLit(c.Args[2])
+		if ok1 && ok2 && a == "+" && b == "%20" && escapeKind(f, c.Args[0], depth) == "url.QueryEscape" {
+			return "url.QueryEscape;+=%20"
+		}
+	}
+	if c, ok := e.(*ast.CallExpr); ok && depth < 2 {
+		if id, ok := c.Fun.(*ast.Ident); ok && len(c.Args) == 1 {
+			if fd := funcDecl(f, "", id.Name); fd != nil && fd.Body != nil {
+				for _, st := range fd.Body.List {
+					if r, ok := st.(*ast.ReturnStmt); ok && len(r.Results) == 1 {
+						return escapeKind(f, r.Results[0], depth+1)
+					}
+				}
+			}
+		}
+	}
+
+	return "unrecognised"
+}
+
 func (fa *facts) idEscape(repo string) {
 	f := parse(repo, "subscriber.go")
 	fd := funcDecl(f, "", "escapeTopics")
@@ -421,22 +453,185 @@ func (fa *facts) idEscape(repo string) {
 
 		return
 	}
+	kinds := map[string]bool{}
+	// the selector: what is appended to escapedTopics
 	ast.Inspect(fd.Body, func(n ast.Node) bool {
-		c, ok := n.(*ast.CallExpr)
-		if !ok {
-			return true
-		}
-		if s, ok := c.Fun.(*ast.SelectorExpr); ok {
-			if id, ok := s.X.(*ast.Ident); ok && id.Name == "url" {
-				fa.IDEscapeFn = "url." + s.Sel.Name
-			}
-		}
-		if id, ok := c.Fun.(*ast.Ident); ok && id.Name != "make" && id.Name != "append" && id.Name != "len" {
-			fa.IDEscapeFn = id.Name
+		c, ok := isCall2(n, "", "append")
+		if ok && len(c.Args) == 2 {
+			kinds[escapeKind(f, c.Args[1], 0)] = true
 		}
 
 		return true
 	})
+	// the subscriber id: s.EscapedID = …(id) in NewLocalSubscriber
+	lf := parse(repo, "localsubscriber.go")
+	if nd := funcDecl(lf, "", "NewLocalSubscriber"); nd != nil {
+		ast.Inspect(nd.Body, func(n ast.Node) bool {
+			a, ok := n.(*ast.AssignStmt)
+			if !ok || len(a.Lhs) != 1 || len(a.Rhs) != 1 {
+				return true
+			}
+			if sel, ok := a.Lhs[0].(*ast.SelectorExpr); ok && sel.Sel.Name == "EscapedID" {
+				kinds[escapeKind(f, a.Rhs[0], 0)] = true
+			}
+
+			return true
+		})
+	}
+	if len(kinds) != 1 || kinds["unrecognised"] {
+		fa.errf("subscriber.go/localsubscriber.go: escaping of subscription ids not recognised (%v)", kinds)
+		fa.IDEscapeFn = "unrecognised"
+
+		return
+	}
+	for k := range kinds {
+		fa.IDEscapeFn = k
+	}
+}
+
+// sysFlags: which variant of the synchronisation code is in /repo (consumed by Model/Sys.lean).
+func (fa *facts) sysFlags(repo string) {
+	fl := map[string]bool{}
+	ls := parse(repo, "localsubscriber.go")
+	callsClose := func(fd *ast.FuncDecl) bool {
+		found := false
+		ast.Inspect(fd, func(n ast.Node) bool {
+			if c, ok := isCall2(n, "", "close"); ok && len(c.Args) == 1 && exprString(c.Args[0]) == "s.out" {
+				found = true
+			}
+
+			return true
+		})
+
+		return found
+	}
+	isLoadDisc := func(n ast.Node) bool {
+		found := false
+		ast.Inspect(n, func(x ast.Node) bool {
+			if c, ok := isCall2(x, "atomic", "LoadInt32"); ok && len(c.Args) == 1 && strings.Contains(exprString2(c.Args[0]), "disconnected") {
+				found = true
+			}
+
+			return true
+		})
+
+		return found
+	}
+	if fd := funcDecl(ls, "LocalSubscriber", "handleFullChan"); fd != nil {
+		fl["closeOnOverflow"] = callsClose(fd)
+	} else {
+		fa.errf("localsubscriber.go: handleFullChan not found")
+	}
+	// Ready: a load of `disconnected` among the top-level statements after the two Lock calls and before the loop
+	if fd := funcDecl(ls, "LocalSubscriber", "Ready"); fd != nil {
+		locks, guard := 0, false
+		for _, st := range fd.Body.List {
+			if es, ok := st.(*ast.ExprStmt); ok && strings.HasSuffix(exprString(es.X), "Mutex.Lock()") {
+				locks++
+			}
+			if _, ok := st.(*ast.RangeStmt); ok {
+				break
+			}
+			if ifs, ok := st.(*ast.IfStmt); ok && locks == 2 && isLoadDisc(ifs.Cond) {
+				guard = true
+			}
+		}
+		fl["readyGuard"] = guard
+	} else {
+		fa.errf("localsubscriber.go: Ready not found")
+	}
+	if fd := funcDecl(ls, "LocalSubscriber", "Disconnect"); fd != nil {
+		locked, recheck := false, false
+		for _, st := range fd.Body.List {
+			if es, ok := st.(*ast.ExprStmt); ok && strings.HasSuffix(exprString(es.X), "outMutex.Lock()") {
+				locked = true
+			}
+			if ifs, ok := st.(*ast.IfStmt); ok && locked && isLoadDisc(ifs.Cond) {
+				recheck = true
+			}
+		}
+		fl["disconnectRecheck"] = recheck
+	} else {
+		fa.errf("localsubscriber.go: Disconnect not found")
+	}
+	lo := parse(repo, "local.go")
+	if fd := funcDecl(lo, "LocalTransport", "Dispatch"); fd != nil {
+		locked, under := false, false
+		for _, st := range fd.Body.List {
+			if es, ok := st.(*ast.ExprStmt); ok && exprString(es.X) == "t.Lock()" {
+				locked = true
+			}
+			ast.Inspect(st, func(n ast.Node) bool {
+				if c, ok := n.(*ast.CallExpr); ok {
+					if sel, ok := c.Fun.(*ast.SelectorExpr); ok && sel.Sel.Name == "MatchAny" && locked {
+						under = true
+					}
+				}
+
+				return true
+			})
+		}
+		fl["localMatchLocked"] = under
+	} else {
+		fa.errf("local.go: Dispatch not found")
+	}
+	bo := parse(repo, "bolt.go")
+	if fd := funcDecl(bo, "", "NewBoltTransport"); fd != nil {
+		set := false
+		ast.Inspect(fd, func(n ast.Node) bool {
+			if kv, ok := n.(*ast.KeyValueExpr); ok {
+				if id, ok := kv.Key.(*ast.Ident); ok && id.Name == "lastSeq" {
+					set = true
+				}
+			}
+			if a, ok := n.(*ast.AssignStmt); ok && len(a.Lhs) == 1 && strings.HasSuffix(exprString(a.Lhs[0]), ".lastSeq") {
+				set = true
+			}
+
+			return true
+		})
+		fl["lastSeqOnOpen"] = set
+	} else {
+		fa.errf("bolt.go: NewBoltTransport not found")
+	}
+	if fd := funcDecl(bo, "BoltTransport", "dispatchHistory"); fd != nil {
+		src := nodeString(fd)
+		escape := strings.Contains(src, "toSeq > 0")
+		cut := false
+		ast.Inspect(fd, func(n ast.Node) bool {
+			if ifs, ok := n.(*ast.IfStmt); ok {
+				if b, ok := ifs.Cond.(*ast.BinaryExpr); ok && b.Op == token.GTR && exprString(b.Y) == "toSeq" && len(ifs.Body.List) == 1 {
+					if br, ok := ifs.Body.List[0].(*ast.BranchStmt); ok && br.Tok == token.BREAK {
+						cut = true
+					}
+				}
+			}
+
+			return true
+		})
+		if cut == escape {
+			fa.errf("bolt.go: dispatchHistory: cut-off shape not recognised (break-before-dispatch=%v, toSeq>0 escape=%v)", cut, escape)
+		}
+		fl["cutBeforeDispatch"] = cut && !escape
+	} else {
+		fa.errf("bolt.go: dispatchHistory not found")
+	}
+	fa.SysFlags = fl
+}
+
+func exprString2(e ast.Expr) string {
+	if u, ok := e.(*ast.UnaryExpr); ok {
+		return "&" + exprString(u.X)
+	}
+
+	return exprString(e)
+}
+
+func nodeString(n ast.Node) string {
+	var b strings.Builder
+	printer.Fprint(&b, fset, n)
+
+	return b.String()
 }
 
 func leanStr(s string) string {
@@ -460,7 +655,7 @@ func leanStrList(l []string) string {
 
 func (fa *facts) lean() string {
 	var b strings.Builder
-	b.WriteString("import Mercure.Model.Selector\n/- GENERATED by /verif/harness/cmd/extract from /repo on every run — do not edit. -/\nnamespace Mercure.Facts\n")
+	b.WriteString("import Mercure.Model.Selector\nimport Mercure.Model.Sys\n/- GENERATED by /verif/harness/cmd/extract from /repo on every run — do not edit. -/\nnamespace Mercure.Facts\n")
 	var segs []string
 	for _, s := range fa.MatchKeySegs {
 		switch s.Kind {
@@ -486,6 +681,8 @@ func (fa *facts) lean() string {
 	fmt.Fprintf(&b, "def eventReplacer : List (List Char) := %s\n", leanStrList(fa.EventReplacer))
 	fmt.Fprintf(&b, "def eventFormats : List (List Char) := %s\n", leanStrList(fa.EventFormats))
 	fmt.Fprintf(&b, "def idEscapeFn : String := %q\n", fa.IDEscapeFn)
+	fmt.Fprintf(&b, "def sysFlags : Mercure.Sys.Flags := ⟨%v, %v, %v, %v, %v, %v⟩\n", fa.SysFlags["closeOnOverflow"], fa.SysFlags["readyGuard"],
+		fa.SysFlags["disconnectRecheck"], fa.SysFlags["localMatchLocked"], fa.SysFlags["lastSeqOnOpen"], fa.SysFlags["cutBeforeDispatch"])
 	fmt.Fprintf(&b, "def extractionErrors : Nat := %d\n", len(fa.Errors))
 	b.WriteString("end Mercure.Facts\n")
 
@@ -515,6 +712,7 @@ func main() {
 	fa.consts(repo)
 	fa.replacers(repo)
 	fa.idEscape(repo)
+	fa.sysFlags(repo)
 	if fa.Errors == nil {
 		fa.Errors = []string{}
 	}
